@@ -35,6 +35,7 @@ SEED_EXPECT = {
     "C13-5": "R13.5", "C12-5": "R12.5", "C12-6": "R12.2", "C06-5": "R6.1", "C08-5": "R8.9", "C08-6": "R8.8", "C17-5": "R17.5", "C17-6": "R17.5",
     "C14-4": "R14.3", "C14-5": "R14.6", "C11-3": "R11.9", "C11-4": "R11.9", "C05-5": "R5.8", "C05-6": "R5.7",
     "C20-5": "R20.4", "C20-6": "R20.5", "C03-5": "R3.5", "C02-5": "R2.1",
+    "C04-5": "R4.1", "C07-5": "R7.8", "C01-5": "R1.3", "C09-4": "R9.1", "C16-5": "R16.1", "C16-6": "R16.4", "C19-5": "R19.3b", "C18-4": "R18.1", "C18-5": "R18.8",
     "C03-3": "R3.6", "C03-4": "R3.6", "C11-1": "R11.7", "C11-2": "R11.6",
 }
 byprop = {}
